@@ -9,6 +9,7 @@ ID = "C07"
 LEVEL = "exploration"
 ENV = {"x64": False, "devices": 1}
 BUDGET = {"quick": 120, "thorough": 2400}
+TRACE_CASES = True      # expensive cases: record the case in flight so a hang can be named
 RULE = (
     "Hypothesis-built option records over every distributed_shampoo argument "
     "(incl. compression +-r, frequent directions with/without reuse, gradient "
